@@ -47,6 +47,10 @@ var c16Names = []string{"a", "ab", "b", "a.b", "c", "ba"}
 func c16Dir() (c16FS, int, []bool) {
 	fs := c16NewFS()
 	verifAssert(fs.Mkdir("d", 0755) == nil, "Mkdir d failed")
+	// siblings whose names extend the directory's name must never show up in its listing
+	verifAssert(hackpadfs.WriteFullFile(fs, "da", []byte{1}, 0644) == nil, "WriteFullFile da failed")
+	verifAssert(fs.Mkdir("d.x", 0755) == nil, "Mkdir d.x failed")
+	verifAssert(hackpadfs.WriteFullFile(fs, "d.x/q", []byte{2}, 0644) == nil, "WriteFullFile d.x/q failed")
 	c := verifChoice("children", verifParam("N")+1)
 	isDir := make([]bool, c)
 	for i := 0; i < c; i++ {
